@@ -8,6 +8,7 @@ import itertools
 from .. import callgraph as CG
 from ..loader import AnalysisError
 from ..sym import (C, NONE, Interp, State, contains, is_const, iter_events,
+                   try_py,
                    kind, subst_fold, term_str, truth, walk_term)
 
 R = 'router.Rule'
@@ -707,6 +708,105 @@ def _formats_first_param(m, fname, depth):
     return True
 
 
+def _appended_items(prog, fi):
+    """({parameter: key text}, {parameter: {key formats}}) read from the
+    items appended on the paths of addMatch: an item is an f-string / a
+    concatenation `<key> = ' <value> '`; the value is a parameter (text) or
+    the second component of an element of a parameter (format)."""
+    text, tmpl = {}, {}
+
+    def item(v):
+        parts = None
+        if kind(v) == 'fstr':
+            parts = list(v[1])
+        elif kind(v) == 'binop' and v[1] == '+':
+            parts = []
+
+            def flat(t):
+                if kind(t) == 'binop' and t[1] == '+':
+                    flat(t[2])
+                    flat(t[3])
+                else:
+                    parts.append(t)
+            flat(v)
+        if not parts or len(parts) < 3:
+            return
+        key, val = parts[0], parts[2]
+        if not (is_const(parts[1]) and str(parts[1][1]).startswith('=')):
+            return
+        if kind(val) == 'param' and is_const(key):
+            text.setdefault(val[1], key[1])
+        elif kind(val) == 'sub' and kind(val[1]) == 'elem' and \
+                kind(val[1][1]) == 'param':
+            prm = val[1][1][1]
+            if kind(key) == 'binop' and key[1] == '%' and is_const(key[2]):
+                tmpl.setdefault(prm, set()).add(key[2][1])
+            elif kind(key) == 'sub' and try_py(key[1])[0] and \
+                    isinstance(try_py(key[1])[1], tuple) and \
+                    try_py(key[1])[1]:
+                # a precomputed table of the keys, indexed by the position:
+                # the format every entry follows
+                tab = try_py(key[1])[1]
+                fmt = str(tab[0]).replace('0', '%d', 1)
+                try:
+                    good = all(t == fmt % (i,) for i, t in enumerate(tab))
+                except (TypeError, ValueError):
+                    good = False
+                tmpl.setdefault(prm, set()).add(fmt if good else '?')
+            elif kind(key) == 'fstr':
+                tmpl.setdefault(prm, set()).add('?')
+    try:
+        paths = Interp(prog, exc_edges=False, max_paths=4000).run(fi)
+    except AnalysisError:
+        return text, tmpl
+    # a closure `add(k, v)` that appends f"{k}='{v}'" is an item writer: a
+    # call of it is the item (k, "='", v, "'")
+    writers = set()
+    for nm, sub in fi.nested.items():
+        ps = sub.params()
+        if len(ps) != 2:
+            continue
+        try:
+            sp = Interp(prog, exc_edges=False).run(sub)
+        except AnalysisError:
+            continue
+        for q in sp:
+            for e in iter_events(q.trace, deep=True):
+                v = None
+                if e[0] == 'mutate' and e[2] == 'append' and e[3]:
+                    v = e[3][0]
+                elif e[0] == 'call' and kind(e[1][2]) == 'attr' and \
+                        e[1][2][2] == 'append' and len(e[1][3]) == 1:
+                    v = e[1][3][0]      # the list is a captured variable
+                if v is not None:
+                    parts = list(v[1]) if kind(v) == 'fstr' else []
+                    if len(parts) >= 3 and parts[0] == ('param', ps[0]) and \
+                            parts[2] == ('param', ps[1]):
+                        writers.add(sub.qualname)
+
+    def closure_call(e):
+        if e[0] == 'call' and e[1][1] in writers and len(e[1][3]) == 2:
+            item(('fstr', (e[1][3][0], C("='"), e[1][3][1], C("'"))))
+    seen = set()
+    for p in paths:
+        for e in iter_events(p.trace, deep=True):
+            closure_call(e)
+            if e[0] == 'loop':
+                for bp in e[4]:
+                    for e2 in iter_events(bp.trace, deep=True):
+                        closure_call(e2)
+            if e[0] == 'mutate' and e[2] == 'append' and e[3] and \
+                    id(e) not in seen:
+                seen.add(id(e))
+                item(e[3][0])
+            if e[0] == 'loop':
+                for bp in e[4]:
+                    for e2 in iter_events(bp.trace, deep=True):
+                        if e2[0] == 'mutate' and e2[2] == 'append' and e2[3]:
+                            item(e2[3][0])
+    return text, tmpl
+
+
 def rule_text(ctx):
     prog = ctx.prog
     fi = prog.func('client.DBusClientConnection.addMatch')
@@ -753,6 +853,12 @@ def rule_text(ctx):
                 '%' not in node.elts[0].value and \
                 isinstance(node.elts[1], ast.Name):
             text.setdefault(node.elts[1].id, node.elts[0].value)
+    # ... and, whatever the spelling (closure, module-level helper taking the
+    # list, inline code), what the interpreter sees appended to the list the
+    # text is joined from: items `<key>='<value>'`
+    sem_text, sem_tmpl = _appended_items(prog, fi)
+    for k_, v_ in sem_text.items():
+        text.setdefault(k_, v_)
     for prm, key in spec_keys.items():
         ctx.ob('C12.D6', fi.qualname, 'text-key:%s' % prm,
                text.get(prm) == key,
@@ -809,6 +915,10 @@ def rule_text(ctx):
                     node.elts[1].id == param:
                 found.add(node.elts[0].value)
         return found
+    _kt = key_template
+
+    def key_template(param):
+        return _kt(param) or set(sem_tmpl.get(param, ()))
     ctx.ob('C12.D6', fi.qualname, 'text-key:arg',
            key_template('arg') == {'arg%d'},
            'string-argument constraints must be written as argN; written '
@@ -847,10 +957,17 @@ def rule_text(ctx):
     # bus side: literal ** keys are parameters of the router
     bfi = prog.func('bus.Bus.dbus_AddMatch')
     keys = None
-    for node in prog._iter_scope(bfi.node):
-        if isinstance(node, ast.Assign) and isinstance(node.value, ast.Dict) \
-                and all(isinstance(k, ast.Constant) for k in node.value.keys):
-            keys = [k.value for k in node.value.keys]
+    from .common import helpers_of
+    for f_ in [bfi] + helpers_of(prog, bfi):
+        # (the parser may have been moved into helpers the handler calls)
+        for node in prog._iter_scope(f_.node):
+            if isinstance(node, ast.Assign) and \
+                    isinstance(node.value, ast.Dict) and node.value.keys \
+                    and all(isinstance(k, ast.Constant)
+                            for k in node.value.keys):
+                keys = [k.value for k in node.value.keys]
+        if keys is not None:
+            break
     if keys is None:
         # the keyword arguments are not built from a literal table in this
         # function any more (a parser extracted into helpers, a table of
